@@ -1,7 +1,7 @@
 """C04 - the reported optimum is the best trial actually evaluated, at every moment."""
 from hypothesis import strategies as st
 
-from vlib import gen
+from vlib import gen, painters
 from vlib.agp import Run, best_of
 from vlib.runner import fail, hyp_run
 from vlib.searchinv import check_reported_best
@@ -83,6 +83,11 @@ def cases(draw):
             case["refine"] = True
             if case["ops"][-1] != "solve":
                 case["ops"] = list(case["ops"]) + ["solve"]
+    if draw(st.integers(0, 15)) == 7 and "refine" not in case["ops"]:
+        # a shipped painter is attached as well (it draws, and probes the objective, when the method stops)
+        case["painter"] = draw(painters.static_painter_specs(recipe["n"]))
+        if case["ops"][-1] != "solve":
+            case["ops"] = list(case["ops"]) + ["solve"]
     return case
 
 
@@ -91,8 +96,6 @@ def body(case):
     run = Run(case["recipe"], case["params"], refine=case["refine"], record=listener)
     prob = run.problem
     obs = []
-    kept = None
-    decoy = None
 
     def snap(where, sol):
         pt, val = best_of(sol)
@@ -106,6 +109,17 @@ def body(case):
 
     if listener:
         run.rec.hook = hook
+    cleanup = painters.attach(run, case["painter"]) if case.get("painter") else None
+    try:
+        return _drive(case, run, prob, obs, snap, listener)
+    finally:
+        if cleanup:
+            cleanup()
+
+
+def _drive(case, run, prob, obs, snap, listener):
+    kept = None
+    decoy = None
     nops = 0
     for op in case["ops"]:
         try:
@@ -156,7 +170,8 @@ def body(case):
     equal_min = sum(1 for v in vals if v == min(vals))
     classes = ["N=%d" % run.n, "refine=%s" % case["refine"], "listener=%s" % listener,
                "refined-mid-run" if "refine" in case["ops"] else "no-mid-run-refinement",
-               "kept-solution" if kept is not None else "no-kept-solution", "decoy" if decoy is not None else "no-decoy", "observations=%d+" % min(len(obs), 6) if len(obs) >= 6
+               "kept-solution" if kept is not None else "no-kept-solution", "decoy" if decoy is not None else "no-decoy",
+               "painter=" + (case["painter"]["kind"] if case.get("painter") else "none"), "observations=%d+" % min(len(obs), 6) if len(obs) >= 6
                else "observations<6"]
     if equal_min > 1:
         classes.append("several-equal-minima")
